@@ -329,6 +329,25 @@ def conn_model(ev, prop, seed, label, B, menu, timeout=2400, **kw):
     ev.add_harness("behaviours replayed on Token::run (%s)" % label, h)
 
 
+def conn_traces(ev, prop, seed, scenarios, sizes=(24, 8192)):
+    """impl -> spec for the connection layer: seeded random connections (realistic sizes, random handler programs,
+    random transport behaviour, random EOF / write faults) recorded at the mock transport and validated by Trace_Conn."""
+    for B in sizes:
+        name = "%s-conntrace-b%d" % (prop, B)
+        wd = os.path.join(cl.OUT, name)
+        os.makedirs(wd, exist_ok=True)
+        trace = os.path.join(wd, "trace.ndjson")
+        h = cl.run_harness(name, ["conn-trace", "--prop", prop, "--seed", str(seed), "--scenarios", str(scenarios), "--B", str(B), "--trace", trace])
+        ev.add_harness("seeded random connections on Token::run, B=%d (recorded)" % B, h, as_traces=False)
+        cfg = ("SPECIFICATION TraceSpec\nCONSTANTS\n  B = %d\n  ND = 1\n  FixA = TRUE\n  FixB = TRUE\nPOSTCONDITION Accepted\nCHECK_DEADLOCK FALSE\n" % B)
+        events, rejected = cl.validate_trace(ev, prop, name, "Trace_Conn", cfg, trace,
+                                             {"cmd": "conn-trace", "prop": prop, "seed": seed, "scenarios": scenarios, "B": B})
+        ev.traces += (h.get("extra") or {}).get("trace_runs", 0)
+        ev.extra.setdefault("trace_events_validated", 0)
+        ev.extra["trace_events_validated"] += events
+        os.remove(trace)
+
+
 CONN_ASSUME = ["the connection task is polled by a single-task executor: what happens between two transport calls is atomic",
                "transport outcomes are scheduled by byte offset (cuts, spurious Pending, faults); at most MaxCuts partial transfers and MaxPend spurious Pending per behaviour, at every offset",
                "the peer sends whole records and releases gated records only after it observed the awaited EndRequest / reply in the bytes written"]
@@ -361,6 +380,7 @@ def c07(ev, tier, seed):
                "real Token::run comparing handler invocations (request, environment, bytes read), the outbound byte stream and "
                "whether run() returned. Non-trivial: more than two transport events.")
     conn_model(ev, "C07", seed, "basic-b24", 24, ["basic", "abort", "query"])
+    conn_traces(ev, "C07", seed, 400 if tier == "thorough" else 60, sizes=(24, 256, 8192) if tier == "thorough" else (24, 8192))
     if tier == "thorough":
         conn_model(ev, "C07", seed, "basic-b32", 32, ["basic", "abort", "query"], maxcuts=3)
         conn_model(ev, "C07", seed, "basic-pend", 24, ["basic"], spurious=True, maxcuts=1, maxpend=2)
@@ -378,6 +398,7 @@ def c09(ev, tier, seed):
                "specification predicts, the result of set_stream, and the is_writeable() samples.")
     conn_model(ev, "C09", seed, "reads-b24", 24, ["reads"], maxcuts=2)
     conn_model(ev, "C09", seed, "reads-pend-q", 24, ["reads"], spurious=True, maxcuts=1, maxpend=1)
+    conn_traces(ev, "C09", seed + 1, 400 if tier == "thorough" else 60, sizes=(24, 64, 8192) if tier == "thorough" else (32, 8192))
     if tier == "thorough":
         conn_model(ev, "C09", seed, "reads-b32", 32, ["reads", "basic"], maxcuts=3)
         conn_model(ev, "C09", seed, "reads-pend", 24, ["reads"], spurious=True, maxcuts=1, maxpend=2)
@@ -396,6 +417,7 @@ def c11(ev, tier, seed):
     sp_model(ev, "C11", seed, "sp", 24, ["mini3"], "tiny", [2], ops=("cs", "ss"))
     for B in ((24, 32) if tier == "thorough" else (24,)):
         conn_model(ev, "C11", seed, "abort-b%d" % B, B, ["abort"], maxcuts=2)
+    conn_traces(ev, "C11", seed + 2, 400 if tier == "thorough" else 60)
     if tier == "thorough":
         chain_traces(ev, "C11", seed, 1500)
     ev.exhaustive = False
@@ -411,6 +433,7 @@ def c12(ev, tier, seed):
                "preamble (handler invocation count and requests equal the specification's), and that a waiting handler receives the "
                "predicted error kind instead of a short read.")
     conn_model(ev, "C12", seed, "faults-b24", 24, ["basic"], faults=("eof", "rerr", "werr", "wzero"), maxcuts=1)
+    conn_traces(ev, "C12", seed + 3, 600 if tier == "thorough" else 80)
     if tier == "thorough":
         conn_model(ev, "C12", seed, "faults-b32", 32, ["basic", "reads", "abort"], faults=("eof", "rerr", "werr", "wzero"), maxcuts=1)
         conn_model(ev, "C12", seed, "faults-cuts2", 24, ["basic"], faults=("eof", "werr"), maxcuts=2)
